@@ -309,6 +309,11 @@ class PSBT:
                             raise ValueError(
                                 f"legacy signature provided does not validate {self}"
                             )
+                    else:
+                        # without the spent output there is nothing to verify against
+                        raise ValueError(
+                            "partial signature provided without the UTXO it signs for"
+                        )
             # validate the NamedPublicKeys
             if psbt_in.named_pubs:
                 for named_pub in psbt_in.named_pubs.values():
